@@ -72,7 +72,7 @@ def run(prop, tier, seed, replay=None):
         return res.finish()
     maxlen = 4 if tier == "quick" else 5
     cfgp = vlib.write_cfg(tmp(f"server_{tier}.cfg"), "Spec", {"MaxLen": maxlen}, invariants=["C19_Reported"],
-                          properties=["C19_SendErrorsHarmless", "C19_KeepsWorking", "C19_DeadIsDead"],
+                          properties=["C19_SendErrorsHarmless", "C19_KeepsWorking", "C19_DeadIsDead", "C19_QueueInOrder"],
                           constraint="Bound", action_constraint="EmitEdge")
     m = vlib.cached_model_run(f"server_{tier}", "Server.tla", cfgp, FILES[:1], workers=6, timeout=3000, heap="8g")
     if not m["ok"]:
